@@ -160,3 +160,13 @@ def run(rep, ctx, tier):
     # C13's rules on calculate_t, attached here because the cap is a size clause
     from .c13 import calculate_t_params
     calculate_t_params(rep, ctx, rule="R11")
+
+
+_run_c19 = run
+
+
+def run(rep, ctx, tier):
+    _run_c19(rep, ctx, tier)
+    from ..rules import argswap
+    argswap.attach(rep, ctx, ["linear_codes::", "hyrax::"],
+                   "the matrix dimensions (and with them commitment and proof sizes) are computed from the wrong quantities")
